@@ -180,6 +180,8 @@ def replay_one(spec, configured, debug, hist, g0snap):
         else:
             fg, _, _ = make(spec, configured, debug)
             ref = observe(fg, expect, text)
+        if 'BYSTANDER' in repr(obs):
+            probs.append(('foreign-message', 'call %d (input %r) shows the message of another grader object: %s' % (n + 1, text, obs)))
         if obs != ref:
             probs.append(('fresh', 'call %d (expect %r, input %r): reused grader %s, fresh grader %s' % (n + 1, expect, text, obs, ref)))
         if not log_ok(obs, text, debug):
@@ -314,7 +316,7 @@ def random_chunk(items, extra):
             now = globals_snapshot()
             recs.append({'id': start + k, 'gid': o['gid'], 'cls': o['cname'], 'configured': o['configured'],
                          'debug': o['debug'], 'e': e, 'i': i, 'expect': expect, 'text': text, 'obs': digest(obs),
-                         'fresh': fresh, 'log_ok': log_ok(obs, text, o['debug']),
+                         'fresh': fresh, 'log_ok': log_ok(obs, text, o['debug']) and 'BYSTANDER' not in repr(obs),
                          'globals_ok': now == snap,
                          'config_ok': config_unchanged(o['cfg'], o['keep']) and scopes_snapshot(o['g']) == o['scopes'],
                          'obs_plain': repr(obs)[:300]})
@@ -333,10 +335,33 @@ def register_defaults_roundtrip():
     probs = []
     before = globals_snapshot()
     base = StringGrader().config
-    StringGrader.register_defaults({'case_sensitive': False})
+    registered = {'case_sensitive': False}
+    StringGrader.register_defaults(registered)
     changed = StringGrader().config['case_sensitive'] is False
+    # a grader built with explicit options must not turn them into defaults for the next one
+    explicit = StringGrader(answers='cat', wrong_msg='nope', strip=False, debug=True)
+    after_explicit = StringGrader().config
+    expected = dict(base, case_sensitive=False)
+    if after_explicit != expected:
+        probs.append('after register_defaults, options given to one StringGrader became defaults of the next: %s' % (
+            {k: v for k, v in after_explicit.items() if expected.get(k) != v},))
+    if StringGrader.default_values != {'case_sensitive': False} or registered != {'case_sensitive': False}:
+        probs.append('constructing a grader changed the registered defaults: %s' % (StringGrader.default_values,))
+    if explicit.config.get('case_sensitive') is not False:
+        probs.append('registered default not applied to a grader with explicit options')
     other = FormulaGrader().config
     StringGrader.clear_registered_defaults()
+    from mitxgraders.baseclasses import ItemGrader
+    ItemGrader.register_defaults({'wrong_msg': 'registered'})
+    try:
+        FormulaGrader(answers='1', samples=3)
+        sg = StringGrader()
+        if sg.config['wrong_msg'] != 'registered' or 'samples' in sg.config:
+            probs.append('defaults registered on ItemGrader: options of a FormulaGrader leaked into StringGrader: %s' % sg.config)
+    except Exception as e:  # noqa
+        probs.append('defaults registered on ItemGrader: constructing StringGrader after a FormulaGrader raised %s: %s' % (type(e).__name__, e))
+    finally:
+        ItemGrader.clear_registered_defaults()
     after_cfg = StringGrader().config
     if not changed:
         probs.append('register_defaults had no effect')
